@@ -369,6 +369,27 @@ static void axis_case(uint64_t idx, void *ctx)
     blk_free(params);
 }
 
+/* ---- dense scale sweep: EVERY 16.16 scale of a range (not a grid), for the kernel pairs of the list ---- */
+typedef struct { int axis; int32_t lo; int nsc; int nb; int bits[4]; int npairs; uint8_t pair[64][2]; } dense_ctx;
+static void dense_case(uint64_t idx, void *vctx)
+{
+    dense_ctx *dc = vctx;
+    int dims[3] = { dc->nsc, dc->nb, dc->npairs }, d[3];
+    vf_decode(idx, dims, 3, d);
+    axcfg c; c.scale = dc->lo + d[0]; c.bits = dc->bits[d[1]]; c.rk = dc->pair[d[2]][0]; c.sk = dc->pair[d[2]][1];
+    g_record = 1;
+    const axcfg *cx = dc->axis == 0 ? &c : &ID_AXIS, *cy = dc->axis == 0 ? &ID_AXIS : &c;
+    vf_count_eval(1);
+    int n, w, h;
+    pixman_fixed_t *params = make_and_check(cx, cy, dc->axis, &n, &w, &h, dc->axis ? "dense-y" : "dense-x", NULL);
+    if (!params) return;
+    int width = dc->axis ? h : w;
+    if (width >= 2) vf_count_nontrivial(1);
+    if (!vf_in_confirm) __atomic_add_fetch(&sh->phases, (uint64_t)1 << c.bits, __ATOMIC_RELAXED);
+    vf_outcome(vf_hash64(params, (size_t)n * sizeof params[0], 19));
+    blk_free(params);
+}
+
 /* ---- cross grid ---- */
 #define MAXCROSS 40
 static axcfg g_cross[MAXCROSS];
@@ -521,8 +542,8 @@ int main(int argc, char **argv)
     vf_rule = "one case = one pixman_filter_create_separable_convolution call; odometer over (scale, subsample bits, sampling kernel, reconstruction kernel) "
               "of the enumerated axis with the other axis fixed to the one-tap identity, for each axis, plus a cross grid of x-config x y-config; "
               "non-trivial = the enumerated table has >= 2 taps per phase (normalisation and error diffusion did work); outcome = hash of the whole block";
-    vf_bounds = th ? "all 8x8 kernel pairs x subsample bits 0..8 x 2059 scales (k/256 for k=1..2048, eps, 2eps, 1/4-eps, 1-eps, 1+eps, 16.25, 64), each axis; 24x24 cross grid"
-                   : "all 8x8 kernel pairs x subsample bits 0..5 x 261 scales (eps, 2eps, 1/4-eps, 1-eps, 1+eps, k/32 for k=1..256, i.e. up to 8.0), each axis; 12x12 cross grid";
+    vf_bounds = th ? "all 8x8 kernel pairs x subsample bits 0..8 x 2059 scales (k/256 for k=1..2048, eps, 2eps, 1/4-eps, 1-eps, 1+eps, 16.25, 64), each axis; 24x24 cross grid; dense sweeps: EVERY scale 1..0x80000 (up to 8.0) x bits {6,3,0} for the 15 kernel pairs with IMPULSE on one side, each axis, and every scale 1..0x10000 x 4 bits for the other 49 pairs"
+                   : "all 8x8 kernel pairs x subsample bits 0..5 x 261 scales (eps, 2eps, 1/4-eps, 1-eps, 1+eps, k/32 for k=1..256, i.e. up to 8.0), each axis; 12x12 cross grid; dense sweeps: EVERY scale 1..0x20000 (x axis; 1..0x10000 y axis) at 6 subsample bits for the 15 kernel pairs with IMPULSE on one side";
     vf_assume("writes outside the block are observed by 4096-byte pattern guard zones around the library's allocation (--wrap=malloc) and, beyond those, by AddressSanitizer "
               "(library and harness built with clang -fsanitize=address, recover mode, suppress_equal_pcs=0); a stray write that stores the guard pattern 0xA5 itself would be missed");
     vf_assume("the kernel widths 0,1,2,4,5,4,6,8 used for the support check are the documented ones of pixman-filter.c filters[]");
@@ -532,6 +553,21 @@ int main(int argc, char **argv)
     vf_space_run("axis-x", naxis, axis_case, &ax0);
     vf_space_run("axis-y", naxis, axis_case, &ax1);
     vf_space_run("cross", (uint64_t)g_ncross * g_ncross, cross_case, NULL);
+    {   /* dense sweeps.  Pairs with IMPULSE on either side are cheap (no numeric integration): every scale in (0, 2.0] quick / (0, 8.0] thorough;
+         * thorough also sweeps all 64 pairs over (0, 1.0] at 4 subsample bits */
+        static dense_ctx dx, dy, da;
+        memset(&dx, 0, sizeof dx);
+        dx.axis = 0; dx.lo = 1; dx.nsc = th ? 0x80000 : 0x20000; dx.nb = th ? 3 : 1; dx.bits[0] = 6; dx.bits[1] = 3; dx.bits[2] = 0;
+        for (int k = 0; k < NK; k++) { dx.pair[dx.npairs][0] = 0; dx.pair[dx.npairs][1] = (uint8_t)k; dx.npairs++; if (k) { dx.pair[dx.npairs][0] = (uint8_t)k; dx.pair[dx.npairs][1] = 0; dx.npairs++; } }
+        dy = dx; dy.axis = 1; if (!th) dy.nsc = 0x10000;
+        vf_space_run("dense-x-impulse-pairs", (uint64_t)dx.nsc * dx.nb * dx.npairs, dense_case, &dx);
+        vf_space_run("dense-y-impulse-pairs", (uint64_t)dy.nsc * dy.nb * dy.npairs, dense_case, &dy);
+        if (th) {
+            memset(&da, 0, sizeof da); da.axis = 0; da.lo = 1; da.nsc = 0x10000; da.nb = 1; da.bits[0] = 4;
+            for (int r = 1; r < NK; r++) for (int k = 1; k < NK; k++) { da.pair[da.npairs][0] = (uint8_t)r; da.pair[da.npairs][1] = (uint8_t)k; da.npairs++; }
+            vf_space_run("dense-x-all-pairs", (uint64_t)da.nsc * da.nb * da.npairs, dense_case, &da);
+        }
+    }
     if (!vf_replaying()) {
         report_failing_inputs();
         size_t el = strlen(vf->extra_json);
